@@ -204,9 +204,9 @@ def ns_dotted(ns):
     return ".".join([ROOT] + [NS_NAMES[x] for x in ns])
 
 
-USER_TEMPLATE = ("\n\n\n// {{ T.full_name }}.{{ T.version.major }}.{{ T.version.minor }}\n"
-                 "{% for f in T.fields_except_padding %}// {{ f.name }}\n{% endfor %}"
-                 "{{ '\n' * ((T.fields_except_padding | length) % 3) }}")
+USER_TEMPLATE = ("\n\n\n// {{ T.full_name }}\n"
+                 "{% for f in T.attributes %}// {{ f.name }}\n{% endfor %}"
+                 "{{ '\\n' * ((T.attributes | length) % 3) }}")
 
 
 def shape_inputs(iid, shape):
@@ -869,13 +869,17 @@ def run_models(ctx):
     mt = 3 if q else 4
     base = "MaxTypes=%d MaxNested=3 Langs={c,cpp,py,html}" % mt
     tlc.check_model(ctx, "GenRepro", "GenRepro" if q else "GenRepro_4", timeout=5400,
-                    constants=base + " Audits={F,T} all gates closed, unsorted walk, run 2 varies clock x loc x cwd")
+                    constants=base + " Audits=%s all gates closed, unsorted walk, run 2 varies clock x loc x cwd" % ("{F}" if q else "{F,T}"))
     tlc.check_model(ctx, "GenRepro", "GenRepro_sorted" if q else "GenRepro_sorted4", timeout=3000,
                     constants=base + " gates model_cache+pp_carry OPEN but SortedWalk=TRUE (the alternative repair)")
     neg = tlc.run_tlc(SPECS / "GenRepro.tla", SPECS / "GenRepro_neg.cfg", ctx.scratch)
     if neg.violated != "Refines":
         raise MachineryFailure("negative control: the design with an open gate was not refuted (%s / %s)" % (neg.error, neg.violated))
-    ctx.cov["model_negative_control"] = "gate model_cache open, unsorted walk: invariant Refines refuted after %d states" % neg.distinct
+    neg2 = tlc.run_tlc(SPECS / "GenRepro.tla", SPECS / "GenRepro_audit.cfg", ctx.scratch)
+    if neg2.violated != "SameEvenWithAudit":
+        raise MachineryFailure("negative control: auditing information did not make the two results differ in the model (%s / %s)" % (neg2.error, neg2.violated))
+    ctx.cov["model_negative_control"] = ["gate model_cache open, unsorted walk: invariant Refines refuted after %d states" % neg.distinct,
+                                         "embed_auditing_info: results differ (SameEvenWithAudit refuted after %d states) while Refines holds" % neg2.distinct]
     wit = tlc.emit_cases(ctx, "GenRepro", "GenRepro_wit_amb", constants="one ambient gate open at a time, MaxTypes=2 MaxNested=1", timeout=3000)
     wit += tlc.emit_cases(ctx, "GenRepro", "GenRepro_wit_order" if q else "GenRepro_wit_order4", timeout=5400,
                           constants="one order-borne gate open at a time, MaxTypes=%d, same clock/loc/cwd in both runs" % mt)
@@ -1093,17 +1097,27 @@ def audit_campaign(ctx, camp):
     ctx.selftest("other absolute location reaches the generator (auditing output changes with the location)", all(effective.get("location", [False])))
 
 
+def _phase(ctx, what):
+    import time
+    print("C07 [%6.1fs] %s" % (time.time() - ctx.t0, what))
+    sys.stdout.flush()
+
+
 def run(ctx):
     wit, orders = run_models(ctx)
+    _phase(ctx, "models checked, %d witnesses, %d predicted orders" % (len(wit), len(orders)))
     camp = Campaign(ctx)
     model_stimuli(ctx, camp, wit, orders)
+    _phase(ctx, "model stimuli executed: %d runs" % len(camp.records))
     random_campaign(ctx, camp)
+    _phase(ctx, "random campaign executed: %d runs" % len(camp.records))
     audit_campaign(ctx, camp)
     if camp.failed_baselines:
         ctx.cov["option_sets_not_applicable"] = camp.failed_baselines[:20]
         if len(camp.failed_baselines) > len(camp.opts) // 3:
             raise MachineryFailure("too many reference runs failed: %r" % camp.failed_baselines[:3])
     rejects = camp.judge()
+    _phase(ctx, "trace validated: %d records, %d rejected" % (len(camp.records), len(rejects)))
 
     # binding self-tests: a reference record against a copy of itself is accepted; with one recorded field corrupted the T-layer
     # must reject exactly that record with the right clause
